@@ -94,7 +94,7 @@ def check_c07(tier, replay):
     try:
         cc.obs_cfg = obs_cfg_fec  # FecObs has no Mod constant
         if replay:
-            raise MachineryError("replay files are not produced for C07 (the violating trace line and its seed are in the description)")
+            vlib.replay_as_rerun(v, replay)   # everything is derived from the seed and tier recorded in the replay file
         # 1. MC: matching ratios, every subset / order / duplicate within the budgets, wrap point inside the run (W = 64)
         insts = [(2, 1, 54), (2, 1, 0), (1, 1, 58), (1, 2, 57), (2, 2, 52)]
         if th:
@@ -145,7 +145,7 @@ def check_c16(tier, replay):
     try:
         cc.obs_cfg = obs_cfg_fec
         if replay:
-            raise MachineryError("replay files are not produced for C16 (the violating trace line and its seed are in the description)")
+            vlib.replay_as_rerun(v, replay)   # everything is derived from the seed and tier recorded in the replay file
         # 1. MC: convergence for mismatched pairs (RingN scaled to 10), stability for matching pairs under all fault patterns
         pairs = [(2, 1, 1, 1, 0), (2, 1, 1, 1, 42), (1, 1, 2, 1, 0)]
         if th:
